@@ -1,6 +1,8 @@
 mod absmodel;
 mod bvhcheck;
 mod clicheck;
+mod convert;
+mod geom;
 mod locks;
 mod sched;
 mod session;
@@ -31,6 +33,7 @@ fn worker(kind: &str) {
             "session" => session::worker_handle(&req),
             "bvh" => bvhcheck::worker_handle(&req),
             "cli" => clicheck::worker_handle(&req),
+            "convert" => convert::worker_handle(&req),
             _ => serde_json::json!({"error": "unknown worker kind"}),
         };
         util::answer(&ans);
@@ -50,6 +53,7 @@ fn main() {
         "bvh" => bvhcheck::main_bvh(&args),
         "sched" => sched::main_sched(&args),
         "cli" => clicheck::main_cli(&args),
+        "convert" => convert::main_convert(&args),
         "locks" => locks::main_locks(&args),
         "locks-one" => locks::main_one(&args),
         other => {
